@@ -5,6 +5,9 @@
 fn any_small(len: usize) -> (HeapVec, [bigint::Limb; 3]) {
     let a: [bigint::Limb; 3] = kani::any();
     let v = HeapVec::try_from(&a[..len]).unwrap();
+    // the heap back end provides at least the design capacity (62 limbs): operations whose result
+    // fits 62 limbs must not fail (shl_limbs compares against capacity())
+    assert!(v.capacity() >= bigint::BIGINT_LIMBS, "C12/C04 heap vector has the 62-limb design capacity");
     (v, a)
 }
 
@@ -61,6 +64,18 @@ fn c13_heap_ops_len0_1() {
 #[kani::unwind(8)]
 fn c13_heap_ops_len3() {
     heap_ops_case(3);
+}
+
+/// shl_limbs on the heap back end: succeeds whenever the result fits 62 limbs
+#[kani::proof]
+#[kani::unwind(8)]
+fn c12_heap_shl_limbs() {
+    let (mut v, a) = any_small(2);
+    let n: usize = kani::any();
+    kani::assume(n >= 1 && n <= 60);
+    assert!(bigint::shl_limbs(&mut v, n) == Some(()), "C12 heap shl_limbs within the design capacity succeeds");
+    assert!(v.len() == 2 + n && v[n] == a[0] && v[n + 1] == a[1] && v[0] == 0 && v[n - 1] == 0, "C12 heap shl_limbs moves limbs and zero-fills");
+    assert!(HeapVec::new().capacity() >= bigint::BIGINT_LIMBS);
 }
 
 #[kani::proof]
